@@ -140,9 +140,8 @@ CLAIMS = {
         "combinations x 6 zone pairs). End to end: two copies of a generated host-router-server scenario in one path, "
         "the attacker runs a solver-chosen operation from a 10-item repertoire in one of them; with a solver-chosen "
         "block in place (ACL any-any / exact source / wildcard range / per-protocol rules, router port down, victim interface down, victim off, router off, and router / switch / victim powered off with a multi-step shutdown during which their port-enable API is called; before or after a warm-up exchange) the victim's identifier-"
-        "normalised describe_state() after 3 ticks is identical in both; a twin shows an unblocked attack is visible.",
-        "note": "Bounds: one topology; the claim 'all cross-host effects travel as frames' only for the repertoire "
-        "exercised; wireless and switched-only topologies not covered; ACL list logic itself is C07. The end-to-end "
+        "normalised describe_state() after 3 ticks is identical in both; the same differential on a generated firewall-with-DMZ scenario (attacker on the external LAN, victim in the internal zone or in the DMZ; blocks: external-inbound deny any / wildcard range / per-protocol, the victim zone's inbound list, the zone port down, victim interface down, victim off, firewall off with zero or multi-step shutdown); a twin shows an unblocked attack is visible.",
+        "note": "Bounds: two topologies (host-router-server, firewall with DMZ); the claim 'all cross-host effects travel as frames' only for the repertoire exercised; wireless and switched-only topologies not covered; ACL list logic itself is C07. The end-to-end "
         "part has only finite choices: the solver enumerates them exhaustively. Trusted: CrossHair/z3, the per-frame "
         "call recorders, describe_state() as the victim's state.",
         "technique": TECH_S,
